@@ -593,9 +593,13 @@ def _energies(atoms_kw, W_fn=None, xc="pbe", seed=0):
     eminus.config.verbose = "critical"
     kw = dict(atoms_kw)
     s_ = kw.pop("s", None)
+    kmesh = kw.pop("kmesh", None)
+    recenter = kw.pop("recenter_by", None)
     at = Atoms(**kw)
     if s_ is not None:
         at.s = list(s_)
+    if kmesh is not None:
+        at.kpts.kmesh = list(kmesh)
     scf = SCF(at, xc=xc, verbose="critical")
     at = scf.atoms
     from eminus.dft import guess_pseudo
@@ -604,6 +608,12 @@ def _energies(atoms_kw, W_fn=None, xc="pbe", seed=0):
     if W_fn is not None:
         W = W_fn(at, W)
     scf.W = W
+    if recenter is not None:
+        # the translation done by the SCF object itself: atoms, orbitals and the potentials built from the positions move together
+        from eminus.tools import center_of_mass
+
+        scf.recenter(center=np.asarray(center_of_mass(at.pos)) + np.asarray(recenter))
+        at = scf.atoms
     scf._precompute()
     get_E(scf)
     scf.energies.Eewald = get_Eewald(at)
@@ -670,6 +680,17 @@ class RigidMotion:
             def shift(at, W):
                 return at.T(W, dr)
             e1, _, _ = _energies(kw2, W_fn=shift, seed=seed)
+        elif self.kind == "grid_translation_by_recenter":
+            m = rng.integers(1, 6, 3)
+            dr = (m / np.array(kw["s"])) @ a
+            e1, _, _ = _energies(dict(kw, recenter_by=dr.tolist()), seed=seed)
+        elif self.kind == "rotation_orthorhombic_cell_with_kmesh":
+            # an orthorhombic cell turned off the Cartesian axes (first instance: a quarter turn about z), k-points with k != 0: they rotate with the cell
+            kw = dict(kw, a=np.diag([6.0, 6.5, 7.0]).tolist(), atom=["Si", "C"], pos=pos[:2].tolist(), ecut=5, s=[12, 13, 14], kmesh=[2, 1, 2])
+            e0, at0, W0 = _energies(kw, seed=seed)
+            R = np.array([[0.0, -1.0, 0.0], [1.0, 0.0, 0.0], [0.0, 0.0, 1.0]]) if seed % 100 == 0 else _rotation(rng)
+            kw2 = dict(kw, a=(np.array(kw["a"]) @ R.T).tolist(), pos=(np.array(kw["pos"]) @ R.T).tolist())
+            e1, _, _ = _energies(kw2, seed=seed)
         else:
             raise ValueError(self.kind)
         # the Ewald sum is truncated at the tolerance documented for get_Eewald (C10): its invariance holds to that (relative) accuracy
@@ -696,9 +717,12 @@ class RigidMotion:
 
 for _k, _doc in (("rotation", "rotating cell vectors and atom positions together"), ("permutation", "listing the atoms in a different order"),
                  ("lattice_translation_single_atom", "moving individual atoms by lattice vectors"),
-                 ("grid_translation", "translating the system by a real-space grid vector with the coefficients translated by T")):
+                 ("grid_translation", "translating the system by a real-space grid vector with the coefficients translated by T"),
+                 ("grid_translation_by_recenter", "translating the system by a real-space grid vector through SCF.recenter (atoms, orbitals and potentials of ONE object move together)"),
+                 ("rotation_orthorhombic_cell_with_kmesh", "rotating an orthorhombic cell with a 2x1x2 k-mesh off the Cartesian axes")):
     register(Obligation(name=f"C06.energies.{_k}", prop=PROP, engine="B", bounded=True, run=RigidMotion(_k),
-                        functions=["eminus.energies:get_E", "eminus.energies:get_Eewald", "eminus.gth:init_gth_loc", "eminus.gth:init_gth_nonloc", "eminus.operators:T"],
+                        functions=["eminus.energies:get_E", "eminus.energies:get_Eewald", "eminus.gth:init_gth_loc", "eminus.gth:init_gth_nonloc", "eminus.operators:T"]
+                        + (["eminus.scf:SCF.recenter"] if "recenter" in _k else []) + (["eminus.kpoints:kpoint_convert"] if "kmesh" in _k else []),
                         budget={"quick": 400, "thorough": 1500},
                         doc=f"BOUNDED: every energy component (Ekin, Ecoul, Exc, Eloc, Enonloc, Eewald) at fixed coefficients is unchanged by {_doc}"))
 
